@@ -22,10 +22,10 @@ def open_log(path, max_bytes=None):
         return ('raise', '%s: %s' % (type(e).__name__, str(e)[:80]))
 
 
-def load_index(p1i, path):
+def load_index(p1i, path, delete_on_error=True):
     from fusion_engine_client.parsers.file_index import FileIndex
     try:
-        idx = FileIndex(p1i, path)
+        idx = FileIndex(p1i, path, delete_on_error=delete_on_error)
     except ValueError:
         return 'ValueError %d' % (0 if os.path.exists(p1i) else 1)
     except BaseException as e:
@@ -85,6 +85,17 @@ def one_log(ctx, d, kinds, lines, pending, msg_boundaries=True, name='t.p1log'):
             got = load_index(p1i, path)
             lines.append('p1iload %s %s' % (B[:k].hex() or '-', d2.hex() or '-'))
             pending.append(('load', replay, got))
+            if k % 3 == 0:
+                # the rarely used call form delete_on_error=False: same verdict, but the index file is left alone
+                with open(p1i, 'wb') as f:
+                    f.write(B[:k])
+                got2 = load_index(p1i, path, delete_on_error=False)
+                if not os.path.exists(p1i):
+                    ctx.violation('C09/index-deleted-despite-delete_on_error-false', 'FileIndex(..., delete_on_error=False) removed the index', replay)
+                if got2.split(' ')[0] != got.split(' ')[0] or (got.startswith('ok') and got2 != got):
+                    ctx.violation('C09/verdict-depends-on-delete_on_error',
+                                  'FileIndex(index, data) gives %s, with delete_on_error=False %s' % (got[:60], got2[:60]), replay)
+                ctx.count('load_delete_on_error_false')
             # 2. the property: open and compare with a fresh scan of the current data
             with open(p1i, 'wb') as f:
                 f.write(B[:k])
@@ -111,9 +122,11 @@ def histories(ctx, n, lines, pending):
         path = ic.write_log(d, rng.choice(['t.p1log', 'capture.raw', 'input.bin']))
         p1i = os.path.splitext(path)[0] + '.p1i'
         hist = []
-        for step in range(rng.choice([3, 4, 5])):
-            op = rng.choice(['open', 'open', 'open-max-bytes', 'append-msg', 'append-junk', 'truncate-data', 'truncate-data-at-message',
-                             'truncate-index'])
+        last_indexed = None
+        indexed_size = None         # size of the data file when an index was last saved for it
+        for step in range(rng.choice([3, 4, 5, 6])):
+            op = rng.choice(['open', 'open', 'open', 'open-max-bytes', 'append-msg', 'append-junk', 'truncate-data',
+                             'truncate-data-at-message', 'truncate-index', 'replace-data', 'empty-data'])
             if step == 0 and hi % 3 == 0:
                 op = 'open-max-bytes'       # a byte-limited open of a log that has no index yet ...
             elif step == 1 and hi % 3 == 0:
@@ -130,10 +143,19 @@ def histories(ctx, n, lines, pending):
                 if offs:
                     o = rng.choice(offs)
                     cur = cur[:o + ic.valid_at(cur, o)]
+            elif op == 'empty-data':
+                cur = b''
+            elif op == 'replace-data':
+                # another log altogether; the property covers replacement by a file of a DIFFERENT size than the indexed one
+                cur, _ = gen.small_file(rng, rng.choice([2, 4, 6]), 64, 'VVUWCJ', pad=rng.choice([0, 5]))
+                if indexed_size is not None and len(cur) == indexed_size:
+                    cur += b'\x00'
             elif op == 'truncate-index' and os.path.exists(p1i):
                 b = open(p1i, 'rb').read()
                 k = rng.choice([0, 13, 14, max(0, len(b) - 14), max(0, len(b) - 1), rng.randrange(len(b) + 1)])
                 open(p1i, 'wb').write(b[:k])
+            if indexed_size is not None and len(cur) == indexed_size and cur != last_indexed:
+                cur += b'\x01'          # same size as when indexed but different content: outside the property
             with open(path, 'wb') as f:
                 f.write(cur)
             hist.append(op)
@@ -145,6 +167,8 @@ def histories(ctx, n, lines, pending):
                     pending.append(('open', {'initial_file': d.hex(), 'history': list(hist), 'data': cur.hex()}, r, cur))
             if op == 'open':
                 r = open_log(path)
+                indexed_size = len(cur)
+                last_indexed = cur
                 pending.append(('open', {'initial_file': d.hex(), 'history': list(hist), 'data': cur.hex()}, r, cur))
                 ctx.count('history_open')
         for f in (path, p1i):
@@ -153,9 +177,43 @@ def histories(ctx, n, lines, pending):
     ic.rebind(80 * 1024, 16 * 1024)
 
 
+def scripted_histories(ctx, pending):
+    """Index A; empty the data file and open it (the index of A must go); write different content of A's size; open."""
+    rng = ctx.rng
+    for i in range(4):
+        a, _ = gen.small_file(rng, rng.choice([3, 5]), 64, 'VU')
+        msgs = []
+        o = 0
+        while o < len(a):
+            n = ic.valid_at(a, o)
+            if not n:
+                break
+            msgs.append(a[o:o + n])
+            o += n
+        if len(msgs) < 2 or o != len(a):
+            continue
+        b = b''.join(msgs[1:] + msgs[:1])          # same messages in another order: same size, other offsets
+        if b == a:
+            continue
+        path = ic.write_log(a, ['t.p1log', 'capture.raw'][i % 2])
+        p1i = os.path.splitext(path)[0] + '.p1i'
+        hist = []
+        for step, content in (('open', a), ('empty-data+open', b''), ('rewrite-same-size+open', b)):
+            with open(path, 'wb') as f:
+                f.write(content)
+            hist.append(step)
+            r = open_log(path)
+            pending.append(('open', {'initial_file': a.hex(), 'history': list(hist), 'data': content.hex()}, r, content))
+            ctx.count('scripted_history_open')
+        for f in (path, p1i):
+            if os.path.exists(f):
+                os.remove(f)
+
+
 def run(ctx, budget):
     rng = ctx.rng
     lines, pending = [], []
+    scripted_histories(ctx, pending)
     for _ in range(budget):
         d, kinds = gen.small_file(rng, rng.choice([1, 2, 3, 5]), 64, 'VVUUWCTSJ', pad=rng.choice([0, 5]))
         one_log(ctx, d, kinds, lines, pending)
